@@ -40,7 +40,9 @@ func cmdVerify(args []string) {
 	verbose := fs.Bool("v", false, "print every obligation")
 	timeout := fs.Int("timeout", 10000, "per-obligation timeout (ms)")
 	keep := fs.Bool("keep", false, "keep failed queries")
+	thorough := fs.Bool("thorough", false, "also decide the clauses tagged [realx]")
 	fs.Parse(args)
+	thoroughTier = *thorough
 	t0 := time.Now()
 	e := NewEngine(*repo, *tags)
 	e.verbose = *verbose
